@@ -326,3 +326,51 @@ def engine_isolation(rep):
         rep.violations.append({"cls": None, "family": "c16-isolation", "source": b_src, "what": f"isolation probe crashed: {type(e).__name__}: {e}"})
     rep.coverage.setdefault("families", {})["c16-isolation"] = {"cases": 1}
     rep.coverage["evaluations"] = rep.coverage.get("evaluations", 0) + 1
+
+
+MUTATING_SESSIONS = [
+    # stories whose passages change values IN PLACE that came out of the compiled story (parameter defaults, literals in
+    # statements, loop collections): (source, choice indices)
+    (":: Start\nHi\n+ [pack] -> Pack\n\n:: Pack(bag=[], extra={})\n~ bag.append(1)\n~ extra['k'] = len(bag)\nbag {bag} {extra}\n+ [again] -> Pack\n+ [back] -> Start\n", [0, 0, 0, 1, 0]),
+    (":: Start\nHi\n+ [a] -> Room(tags=['x'])\n\n:: Room(tags=[], seen=[1, 2], notes={'k': [0]})\n~ tags.append('t')\n~ seen += [3]\n~ notes['k'].append(len(seen))\n{tags} {seen} {notes}\n+ [again] -> Room\n+ [same] -> Room(tags=['x'])\n", [0, 0, 1, 0]),
+    (":: Start\n~ base = [0]\n~ log = []\nHi\n+ [a] -> Box\n\n:: Box(items=[1, 2], label='b', n=3)\n~ items.append(n)\n~ log.append(items)\n@for it in [[1], [2]]:\n  ~ it.append(9)\n  {it}\n@endfor\n{items} {label} {log}\n+ [again] -> Box\n", [0, 0, 0]),
+]
+
+
+def mutating_sessions(rep):
+    """an engine never modifies the compiled story it was given, and engines sharing one story object do not interfere -
+    on stories that mutate in place the values their passages were handed (real code only)"""
+    from bardic.runtime.engine import BardEngine
+    n = 0
+    for src, picks in MUTATING_SESSIONS:
+        try:
+            story = corr_play.compile_source(src)
+        except Exception as ex:  # noqa
+            rep.violations.append({"cls": None, "family": "c16-mutating", "what": f"probe story does not compile: {ex}", "source": src})
+            continue
+        shared = copy.deepcopy(story)
+
+        def play(obj):
+            with quiet():
+                e = BardEngine(obj)
+                outs = [e.current().content]
+                for p in picks:
+                    outs.append(e.choose(p).content)
+            return outs
+        try:
+            ref = play(copy.deepcopy(story))
+            first = play(shared)
+            changed = shared != story
+            second = play(shared)
+        except Exception as ex:  # noqa
+            rep.violations.append({"cls": None, "family": "c16-mutating", "what": f"probe session failed: {type(ex).__name__}: {str(ex)[:160]}", "source": src, "picks": picks})
+            continue
+        n += 1
+        if changed:
+            rep.violations.append({"cls": None, "family": "c16-mutating", "source": src, "picks": picks,
+                                   "what": "the engine modified the compiled story it was given (a value from the story was changed in place by the play)"})
+        if first != ref or second != ref:
+            rep.violations.append({"cls": None, "family": "c16-mutating", "source": src, "picks": picks,
+                                   "what": f"the same choices on the same story show different things: own copy {ref}, first engine on the shared object {first}, second engine on it {second}"})
+    rep.coverage.setdefault("families", {})["c16-mutating"] = {"cases": n}
+    rep.coverage["evaluations"] = rep.coverage.get("evaluations", 0) + n
